@@ -25,51 +25,86 @@ func c10R4(c *Ctx) {
 	if fi == nil || negF == nil || idF == nil || uriF == nil || extURI == nil || addT == nil {
 		return
 	}
-	g := c.P.GraphOf(fi)
-	info := g.Info
-	fn := fi.Name()
 	pos := c.P.Pos(fi.Decl.Pos())
+	// the functions judged: getRTPParametersByKind and the same-package helpers it calls (a block may have been extracted)
+	funcs := []*core.FuncInfo{fi}
+	seenF := map[*core.FuncInfo]bool{fi: true}
+	for depth, frontier := 0, []*core.FuncInfo{fi}; depth < 2 && len(frontier) > 0; depth++ {
+		var next []*core.FuncInfo
+		for _, f := range frontier {
+			finfo := f.Pkg.TypesInfo
+			ast.Inspect(f.Decl.Body, func(n ast.Node) bool {
+				if call, ok := n.(*ast.CallExpr); ok {
+					if callee := c.P.DeclOf(core.Callee(finfo, call)); callee != nil && callee.Decl.Body != nil && callee.Pkg == fi.Pkg && !seenF[callee] {
+						seenF[callee] = true
+						next = append(next, callee)
+						funcs = append(funcs, callee)
+					}
+				}
+				return true
+			})
+		}
+		frontier = next
+	}
 
-	// stores into local maps of header extensions
+	// stores into local maps of header extensions (function bodies and the closures inside them)
 	type store struct {
+		f    *core.FuncInfo
+		g    *core.Graph
 		node int
 		as   *ast.AssignStmt
 		m    *types.Var
 		idx  *types.Var
 	}
 	var stores []store
-	for _, n := range g.Nodes {
-		as, ok := n.Ast.(*ast.AssignStmt)
-		if !ok {
-			continue
-		}
-		for _, l := range as.Lhs {
-			ix, ok := ast.Unparen(l).(*ast.IndexExpr)
-			if !ok {
-				continue
+	for _, f := range funcs {
+		info := f.Pkg.TypesInfo
+		regions := []*core.Graph{c.P.GraphOf(f)}
+		ast.Inspect(f.Decl.Body, func(x ast.Node) bool {
+			if fl, ok := x.(*ast.FuncLit); ok {
+				if lg := c.P.GraphOfLit(fl); lg != nil {
+					regions = append(regions, lg)
+				}
 			}
-			mv := core.VarOf(info, ix.X)
-			if mv == nil || mv.IsField() {
-				continue
+			return true
+		})
+		for _, rg := range regions {
+			for _, n := range rg.Nodes {
+				as, ok := n.Ast.(*ast.AssignStmt)
+				if !ok {
+					continue
+				}
+				for _, l := range as.Lhs {
+					ix, ok := ast.Unparen(l).(*ast.IndexExpr)
+					if !ok {
+						continue
+					}
+					mv := core.VarOf(info, ix.X)
+					if mv == nil || mv.IsField() {
+						continue
+					}
+					mt, ok := mv.Type().Underlying().(*types.Map)
+					if !ok || !types.Identical(mt.Elem(), extURI.Origin().Type()) && !c10IsExtType(mt.Elem(), extURI) {
+						continue
+					}
+					iv := core.VarOf(info, ix.Index)
+					if iv == nil {
+						r.Undecided(rule, f.Name()+"|id-store", c.P.Pos(as.Pos()), "header-extension id is not a variable: "+exprStr(ix.Index))
+						continue
+					}
+					stores = append(stores, store{f, rg, n.ID, as, mv, iv})
+				}
 			}
-			mt, ok := mv.Type().Underlying().(*types.Map)
-			if !ok || !types.Identical(mt.Elem(), extURI.Origin().Type()) && !c10IsExtType(mt.Elem(), extURI) {
-				continue
-			}
-			iv := core.VarOf(info, ix.Index)
-			if iv == nil {
-				r.Undecided(rule, fn+"|id-store", c.P.Pos(as.Pos()), "header-extension id is not a variable: "+exprStr(ix.Index))
-				continue
-			}
-			stores = append(stores, store{n.ID, as, mv, iv})
 		}
 	}
 	nLocal := 0
 	for _, st := range stores {
+		info := st.f.Pkg.TypesInfo
+		fg := c.P.GraphOf(st.f)
 		// classify the index variable
 		var loop *ast.ForStmt
 		var rng *ast.RangeStmt
-		for _, x := range g.PathTo(st.as) {
+		for _, x := range fg.PathTo(st.as) {
 			switch s := x.(type) {
 			case *ast.ForStmt:
 				if as, ok := s.Init.(*ast.AssignStmt); ok && len(as.Lhs) == 1 && core.VarOf(info, as.Lhs[0]) == st.idx {
@@ -83,77 +118,112 @@ func c10R4(c *Ctx) {
 		}
 		switch {
 		case rng != nil && core.FieldOf(info, rng.X) == negF:
-			r.Info(rule, fn+"|id-store|negotiated-id", c.P.Pos(st.as.Pos()), "id chosen by the remote side (key of negotiatedHeaderExtensions) is reused; its range is not decided (extmap-allow-mixed permits ids above 14)")
-		case loop != nil:
+			r.Info(rule, st.f.Name()+"|id-store|negotiated-id", c.P.Pos(st.as.Pos()), "id chosen by the remote side (key of negotiatedHeaderExtensions) is reused; its range is not decided (extmap-allow-mixed permits ids above 14)")
+		case loop != nil && st.g.NodeOf(loop.Init) >= 0:
 			nLocal++
-			c10LocalIDLoop(c, rule, fi, g, loop, st.node, st.as, st.m, st.idx, negF, nLocal)
+			c10LocalIDLoop(c, rule, st.f, st.g, loop, st.node, st.as, st.m, st.idx, negF, nLocal)
 		default:
-			r.Undecided(rule, fn+"|id-store", c.P.Pos(st.as.Pos()), "a header-extension id is stored whose origin is neither a counting loop nor a negotiated id: "+exprStr(st.as.Lhs[0]))
+			r.Undecided(rule, st.f.Name()+"|id-store", c.P.Pos(st.as.Pos()), "a header-extension id is stored whose origin is neither a counting loop (in the same function body) nor a negotiated id: "+exprStr(st.as.Lhs[0]))
 		}
 	}
 	if nLocal == 0 {
-		r.Fail(rule, fn+"|local-id", pos, "no local id allocation loop found: the rule lost its anchor")
+		r.Fail(rule, fi.Name()+"|local-id", pos, "no local id allocation loop found: the rule lost its anchor")
 	}
 
 	// every returned header extension takes its ID from a map key and its URI from that entry
 	nLit := 0
-	ast.Inspect(fi.Decl.Body, func(x ast.Node) bool {
-		cl, ok := x.(*ast.CompositeLit)
-		if !ok {
-			return true
-		}
-		named, _ := info.TypeOf(cl).(*types.Named)
-		if named == nil || named.Obj() != idF.Pkg().Scope().Lookup("RTPHeaderExtensionParameter") {
-			return true
-		}
-		nLit++
-		key := sprintf("%s|header-extension#%d|id-is-map-key", fn, nLit)
-		var idE, uriE ast.Expr
-		for i, el := range cl.Elts {
-			if kv, ok := el.(*ast.KeyValueExpr); ok {
-				if id, ok := kv.Key.(*ast.Ident); ok {
-					switch info.Uses[id] {
-					case types.Object(idF):
-						idE = kv.Value
-					case types.Object(uriF):
-						uriE = kv.Value
+	for _, fi := range funcs {
+		g := c.P.GraphOf(fi)
+		info := g.Info
+		fn := fi.Name()
+		ast.Inspect(fi.Decl.Body, func(x ast.Node) bool {
+			cl, ok := x.(*ast.CompositeLit)
+			if !ok {
+				return true
+			}
+			named, _ := info.TypeOf(cl).(*types.Named)
+			if named == nil || named.Obj() != idF.Pkg().Scope().Lookup("RTPHeaderExtensionParameter") {
+				return true
+			}
+			nLit++
+			key := sprintf("%s|header-extension#%d|id-is-map-key", fn, nLit)
+			var idE, uriE ast.Expr
+			for i, el := range cl.Elts {
+				if kv, ok := el.(*ast.KeyValueExpr); ok {
+					if id, ok := kv.Key.(*ast.Ident); ok {
+						switch info.Uses[id] {
+						case types.Object(idF):
+							idE = kv.Value
+						case types.Object(uriF):
+							uriE = kv.Value
+						}
+					}
+				} else {
+					st := named.Underlying().(*types.Struct)
+					if i < st.NumFields() {
+						switch st.Field(i) {
+						case idF:
+							idE = el
+						case uriF:
+							uriE = el
+						}
 					}
 				}
+			}
+			if idE == nil || uriE == nil {
+				r.Fail(rule, key, c.P.Pos(cl.Pos()), "ID or URI missing from the literal")
+				return true
+			}
+			if core.FieldOf(info, uriE) != extURI {
+				r.Fail(rule, key, c.P.Pos(cl.Pos()), "the URI is not the uri field of a header-extension entry: "+exprStr(uriE))
+				return true
+			}
+			idV, uriRoot := core.VarOf(info, idE), c15RootVar(info, uriE)
+			// directly inside a range over a map?
+			if why := c10IDIsMapKey(g, info, cl, idV, uriRoot); why == "" {
+				r.OK(rule, key, c.P.Pos(cl.Pos()), "ID is a map key (unique per section), URI is that entry's uri")
+				return true
 			} else {
-				st := named.Underlying().(*types.Struct)
-				if i < st.NumFields() {
-					switch st.Field(i) {
-					case idF:
-						idE = el
-					case uriF:
-						uriE = el
+				// inside a closure taking (id, entry): judged at every invocation of the closure
+				var lit *ast.FuncLit
+				for _, e := range g.PathTo(cl) {
+					if fl, ok := e.(*ast.FuncLit); ok {
+						lit = fl
 					}
 				}
+				pi, pu := -1, -1
+				if lit != nil {
+					if lsig, ok := info.TypeOf(lit).(*types.Signature); ok {
+						for i := 0; i < lsig.Params().Len(); i++ {
+							if lsig.Params().At(i) == idV {
+								pi = i
+							}
+							if lsig.Params().At(i) == uriRoot {
+								pu = i
+							}
+						}
+					}
+				}
+				invs := c15LitInvocations(info, fi.Decl.Body, lit)
+				if pi < 0 || pu < 0 || len(invs) == 0 || c10ParamsReassigned(info, lit, idV, uriRoot) {
+					r.Fail(rule, key, c.P.Pos(cl.Pos()), why)
+					return true
+				}
+				for k, inv := range invs {
+					ck := sprintf("%s|call#%d", key, k+1)
+					if pi >= len(inv.Args) || pu >= len(inv.Args) {
+						r.Undecided(rule, ck, c.P.Pos(inv.Pos()), "closure called with fewer arguments than parameters")
+						continue
+					}
+					w := c10IDIsMapKey(g, info, inv, core.VarOf(info, inv.Args[pi]), core.VarOf(info, inv.Args[pu]))
+					r.Check(w == "", rule, ck, c.P.Pos(inv.Pos()), "the closure building the header extension is called with a map key as ID and that entry as source of the URI", w)
+				}
 			}
-		}
-		bad := "ID or URI missing from the literal"
-		if idE != nil && uriE != nil {
-			bad = "the ID is not the key of a range over a map of header extensions"
-			kv := core.VarOf(info, idE)
-			for _, e := range g.PathTo(cl) {
-				rs, ok := e.(*ast.RangeStmt)
-				if !ok || rs.Key == nil || kv == nil || core.VarOf(info, rs.Key) != kv {
-					continue
-				}
-				if _, isMap := info.TypeOf(rs.X).Underlying().(*types.Map); !isMap {
-					continue
-				}
-				bad = ""
-				if rs.Value == nil || core.FieldOf(info, uriE) != extURI || c15RootVar(info, uriE) != core.VarOf(info, rs.Value) {
-					bad = "the URI is not the uri of the map entry whose key is the ID"
-				}
-			}
-		}
-		r.Check(bad == "", rule, key, c.P.Pos(cl.Pos()), "ID is a map key (unique per section), URI is that entry's uri", bad)
-		return true
-	})
+			return true
+		})
+	}
 	if nLit == 0 {
-		r.Fail(rule, fn+"|header-extension", pos, "no RTPHeaderExtensionParameter is built: the rule lost its anchor")
+		r.Fail(rule, fi.Name()+"|header-extension", pos, "no RTPHeaderExtensionParameter is built: the rule lost its anchor")
 	}
 
 	// addTransceiverSDP: the extmap value comes from getRTPParametersByKind
@@ -162,44 +232,53 @@ func c10R4(c *Ctx) {
 		r.Fail(rule, "anchor:sdp.MediaDescription.WithExtMap", "-", "method no longer resolves")
 		return
 	}
-	pv := core.NewProv(c.P, addT)
-	ainfo := addT.Pkg.TypesInfo
+	// every WithExtMap call of the root package (addTransceiverSDP, or a helper the loop was moved into: parameters are
+	// bound to the arguments of every call site)
+	up := c10NewUpProv(c)
 	n := 0
-	ast.Inspect(addT.Decl.Body, func(x ast.Node) bool {
-		call, ok := x.(*ast.CallExpr)
-		if !ok || !core.IsCallTo(ainfo, call, withExt) || len(call.Args) != 1 {
-			return true
+	for _, af := range c.P.AllFuncs() {
+		if af.Decl.Body == nil || af.Pkg != addT.Pkg {
+			continue
 		}
-		n++
-		bad := "the argument is not an ExtMap literal with a Value"
-		if cl, ok := ast.Unparen(call.Args[0]).(*ast.CompositeLit); ok {
-			for _, el := range cl.Elts {
-				kv, ok := el.(*ast.KeyValueExpr)
-				if !ok {
-					continue
-				}
-				if id, ok := kv.Key.(*ast.Ident); ok && id.Name == "Value" {
-					bad = ""
-					lv := pv.Leaves(kv.Value)
-					if len(lv) == 0 {
-						bad = "the extmap id is a constant"
+		ainfo := af.Pkg.TypesInfo
+		k := 0
+		ast.Inspect(af.Decl.Body, func(x ast.Node) bool {
+			call, ok := x.(*ast.CallExpr)
+			if !ok || !core.IsCallTo(ainfo, call, withExt) || len(call.Args) != 1 {
+				return true
+			}
+			n++
+			k++
+			bad := "the argument is not an ExtMap literal with a Value"
+			if cl, ok := ast.Unparen(call.Args[0]).(*ast.CompositeLit); ok {
+				for _, el := range cl.Elts {
+					kv, ok := el.(*ast.KeyValueExpr)
+					if !ok {
+						continue
 					}
-					for k, lf := range lv {
-						if !(lf.Kind == "call" && lf.Fn == fi.Obj) {
-							bad = "the extmap id derives from " + k
+					if id, ok := kv.Key.(*ast.Ident); ok && id.Name == "Value" {
+						bad = ""
+						lv := up.leaves(af, kv.Value, 0)
+						if len(lv) == 0 {
+							bad = "the extmap id is a constant"
 						}
-					}
-					if bad == "" && core.FieldOf(ainfo, kv.Value) != idF {
-						bad = "the extmap id is not the ID field of a header-extension parameter: " + exprStr(kv.Value)
+						for k, lf := range lv {
+							if !(lf.Kind == "call" && lf.Fn == fi.Obj) {
+								bad = "the extmap id derives from " + k
+							}
+						}
+						if bad == "" && core.FieldOf(ainfo, kv.Value) != idF {
+							bad = "the extmap id is not the ID field of a header-extension parameter: " + exprStr(kv.Value)
+						}
 					}
 				}
 			}
-		}
-		r.Check(bad == "", rule, sprintf("%s|WithExtMap#%d|id-from-getRTPParametersByKind", addT.Name(), n), c.P.Pos(call.Pos()), "extmap id is the ID of a parameter returned by getRTPParametersByKind", bad)
-		return true
-	})
+			r.Check(bad == "", rule, sprintf("%s|WithExtMap#%d|id-from-getRTPParametersByKind", af.Name(), k), c.P.Pos(call.Pos()), "extmap id is the ID of a parameter returned by getRTPParametersByKind", bad)
+			return true
+		})
+	}
 	if n == 0 {
-		r.Fail(rule, addT.Name()+"|WithExtMap", c.P.Pos(addT.Decl.Pos()), "addTransceiverSDP no longer calls WithExtMap: the rule lost its anchor")
+		r.Fail(rule, "WithExtMap", c.P.Pos(addT.Decl.Pos()), "no extmap attribute is emitted anywhere (WithExtMap is never called): the rule lost its anchor")
 	}
 }
 
@@ -442,4 +521,51 @@ func c10IsAppendOf(info *types.Info, e ast.Expr, list, elem *types.Var) bool {
 	}
 	b, ok := info.Uses[id].(*types.Builtin)
 	return ok && b.Name() == "append" && core.VarOf(info, call.Args[0]) == list && core.VarOf(info, call.Args[1]) == elem
+}
+
+// c10IDIsMapKey: at lies in a range over a map whose key variable is idV and whose value variable is uriRoot ("" if so).
+func c10IDIsMapKey(g *core.Graph, info *types.Info, at ast.Node, idV, uriRoot *types.Var) string {
+	if idV == nil {
+		return "the ID is not the key of a range over a map of header extensions"
+	}
+	why := "the ID is not the key of a range over a map of header extensions"
+	for _, e := range g.PathTo(at) {
+		rs, ok := e.(*ast.RangeStmt)
+		if !ok || rs.Key == nil || core.VarOf(info, rs.Key) != idV {
+			continue
+		}
+		if _, isMap := info.TypeOf(rs.X).Underlying().(*types.Map); !isMap {
+			continue
+		}
+		why = ""
+		if rs.Value == nil || uriRoot == nil || core.VarOf(info, rs.Value) != uriRoot {
+			why = "the URI is not the uri of the map entry whose key is the ID"
+		}
+	}
+	return why
+}
+
+// c10ParamsReassigned: one of the variables is assigned inside the literal.
+func c10ParamsReassigned(info *types.Info, lit *ast.FuncLit, vs ...*types.Var) bool {
+	found := false
+	ast.Inspect(lit.Body, func(n ast.Node) bool {
+		switch s := n.(type) {
+		case *ast.AssignStmt:
+			for _, l := range s.Lhs {
+				for _, v := range vs {
+					if c15RootVar(info, l) == v {
+						found = true
+					}
+				}
+			}
+		case *ast.IncDecStmt:
+			for _, v := range vs {
+				if c15RootVar(info, s.X) == v {
+					found = true
+				}
+			}
+		}
+		return true
+	})
+	return found
 }
